@@ -79,10 +79,24 @@ template <typename K> static std::string chunk_event(K const& k)
        + std::to_string(k.is_last()) + ")";
 }
 
+static size_t map_size(StringMap const& m)
+{ size_t n = 0; for (auto const& kv : m) n += kv.first.size() + kv.second.size(); return n; }
+
+template <typename H> static size_t headers_retained(H const& h)
+{ return map_size(h.fields_) + h.field_.name_.size() + h.field_.value_.size(); }
+
+// C06: the request data a connection holds on to
+template <typename R> static size_t retained(R const& rx)
+{
+  return rx.request_.method_.size() + rx.request_.uri_.size() + headers_retained(rx.request_.headers_) + rx.body_.size()
+       + rx.chunk_.data_.size() + rx.chunk_.hex_size_.size() + rx.chunk_.extension_.size() + headers_retained(rx.chunk_.trailers_);
+}
+
 template <typename R>
 static std::string run_req(R& rx, std::vector<std::string> const& frags, bool concat)
 {
   std::string calls, events;
+  size_t maxret = 0;
   for (auto const& f : frags)
   {
     typename std::conditional<true, std::string, void>::type buf(f);
@@ -135,6 +149,7 @@ static std::string run_req(R& rx, std::vector<std::string> const& frags, bool co
       }
       if (!ev.empty()) { if (!events.empty()) events += ";"; events += ev; }
     }
+    maxret = std::max(maxret, retained(rx));
   }
   auto const& q = rx.request_;
   std::string st = std::to_string(static_cast<int>(q.state_)) + "," + hx(q.method_) + "," + hx(q.uri_) + ","
@@ -143,7 +158,7 @@ static std::string run_req(R& rx, std::vector<std::string> const& frags, bool co
     + "#" + headers_digest(q.headers_) + "#" + chunk_digest(rx.chunk_) + "#" + hx(rx.body_) + ","
     + std::to_string(static_cast<int>(rx.response_code_)) + "," + std::to_string(rx.continue_sent_) + "," + std::to_string(rx.is_head_)
     + "," + opt_continue_pending_(rx);
-  return "calls=" + (calls.empty() ? "-" : calls) + " events=" + (events.empty() ? "-" : events) + " state=" + st;
+  return "calls=" + (calls.empty() ? "-" : calls) + " events=" + (events.empty() ? "-" : events) + " state=" + st + " maxret=" + std::to_string(maxret);
 }
 
 template <typename R>
